@@ -539,12 +539,90 @@ func randomStruct(r *rand.Rand, name string) structSpec {
 	return s
 }
 
+
+// embedded types whose (promoted) hand-written methods are named like members gombok generates for the outer
+// struct: the outer struct still gets its own getter/With for its own field (a promoted method is not a method
+// declared on the outer type).
+const embMethodsTypes = `package vm1
+
+import "github.com/csgura/fp"
+
+//go:generate gombok
+
+var _ fp.Unit
+
+type Base struct {
+	label string
+}
+
+func (b Base) Label() string { return "base" }
+
+func (b Base) WithLabel(v string) Base {
+	b.label = v
+	return b
+}
+
+type Source interface {
+	Name() string
+}
+
+type FixedSource int
+
+func (s FixedSource) Name() string { return "source" }
+
+// @fp.Value
+type Person struct {
+	Base
+	label string
+	age   int
+}
+
+// @fp.Value
+type Job struct {
+	Source
+	name string
+	prio int
+}
+`
+
+const embMethodsHarness = `package vm1
+
+import (
+	zz "scratchmod/zzverif"
+)
+
+func VH_c07_vm1_promoted_method_named_like_getter() {
+	l, a := zz.Str("l", 1), zz.Int("a")
+	p := Person{Base: Base{label: zz.Str("bl", 1)}, label: l, age: a}
+	zz.Assert(p.Label() == l, "getter Label() returns the struct's own field label, not the promoted method of the embedded Base")
+	nl := zz.Str("nl", 1)
+	var q Person = p.WithLabel(nl)
+	zz.Assert(q.label == nl && q.age == a && q.Base == p.Base, "WithLabel replaces field label of the Person and nothing else")
+	zz.Assert(p.label == l, "WithLabel leaves the receiver alone")
+	zz.Assert(p.Age() == a && p.WithAge(a+1).age == a+1 && p.WithAge(a+1).label == l, "getter/With of the other field")
+}
+
+func VH_c07_vm1_embedded_interface_method_named_like_getter() {
+	n, pr := zz.Str("n", 1), zz.Int("p")
+	j := Job{Source: FixedSource(1), name: n, prio: pr}
+	zz.Assert(j.Name() == n, "getter Name() returns the struct's own field name, not the embedded interface's method")
+	nn := zz.Str("nn", 1)
+	var k Job = j.WithName(nn)
+	zz.Assert(k.name == nn && k.prio == pr && k.Source == j.Source, "WithName replaces field name and nothing else")
+}
+`
+
+func embMethodsProgram() Program {
+	return Program{Pkg: "vm1", Files: map[string][]byte{"types.go": []byte(embMethodsTypes)}, Harness: map[string][]byte{"zz_verif_harness.go": []byte(embMethodsHarness)}, Desc: "fixed: embedded types with methods named like generated members"}
+}
+
 // ValuePrograms returns the scratch programs of C07 for the tier and seed.
 func ValuePrograms(tier string, seed int) []Program {
 	var out []Program
 	for i, ss := range fixedPrograms() {
 		out = append(out, mkProgram(fmt.Sprintf("v%02d", i), ss, "fixed"))
 	}
+	out = append(out, embMethodsProgram())
 	nrand := 10
 	if tier == "thorough" {
 		nrand = 60
